@@ -56,7 +56,11 @@ def plan(ctx):
     k = 6 if tier == "quick" else 80
     stress = [("tostress%d" % i, ["race mark", "tostress run seed=%d q=%d n=%d harvesters=%d" % (
         rng.randint(1, 10 ** 6), rng.choice([1, 5, 50, 1000]), rng.choice([100, 300, 600]), rng.choice([1, 2, 3])), "race reports"]) for i in range(k)]
-    return [("corpus", corpus(ID)), ("gen", [("race%d" % i, gen(rng)) for i in range(n)]), ("spanq", spanq), ("tostress", stress)]
+    # the real HTTP client shared by several sender goroutines, against a collector that often answers before it has read the body
+    storm = [("httpstorm%d" % i, ["race mark", "redact storm conc=%d n=%d seed=%d" % (rng.choice([2, 3, 4]), rng.choice([6, 8]), rng.randint(1, 999)),
+                                  "race reports"]) for i in range(2 if tier == "quick" else 30)]
+    return [("corpus", corpus(ID)), ("gen", [("race%d" % i, gen(rng)) for i in range(n)]), ("spanq", spanq), ("tostress", stress),
+            ("httpstorm", storm)]
 
 
 def run(ctx, bname, seqs):
